@@ -1,4 +1,5 @@
 import TsVerif.C08.Lemmas
+import TsVerif.C08.Acyclic
 /-!
 # C08 — Trees are persistent values: copies are isolated and safe across threads
 
@@ -23,7 +24,7 @@ spurious count.
 | every shared node is freed exactly once / never reused | `freed_never_reused_edit`, `freed_never_reused_release`: a freed id stays freed under every operation (ids are never recycled, so a second free of the same cell cannot be confused with a new one) |
 | deleting other copies never alters it | `delete_isolated` (the whole cascade of `ts_subtree_release`), `rc_invariant_delete` |
 | editing a copy never alters what another handle observes | `edit_isolated` (every edit, any visited set), `copy_isolated` |
-| every shared node is freed exactly once after the last handle goes away | `rc_invariant_delete` + `no_dangling_no_garbage`: after every history (`rc_invariant`) every cell without owner has been freed and no freed cell is referenced; freed ids are never reused. OPEN `heap_empty_after_last_delete` (needs an acyclicity rank: with no handle left, live cells could only be referenced from a cycle) — judged by the allocator balance |
+| every shared node is freed exactly once after the last handle goes away | `heap_empty_after_last_delete` (after any history of copy/edit/re-parse/delete that leaves no live handle, no cell is live), via `acyclic_invariant` (a height function decreasing along child links survives every operation: clones inherit the height, promoted leaves get 0, built nodes 1 + Σ children — Acyclic.lean) and `rc_invariant`; `no_dangling_no_garbage`; freed ids are never reused (`freed_never_reused_*`) |
 | using any copy as the old tree of a re-parse never alters it | `reparse_isolated`, `rc_invariant_reparse` (re-parse as an abstract build with the ownership contract "reuse = retain, everything else is a fresh cell"; which subtrees are reused is not modelled) |
 | concurrent use = sequential use; no reference-count update is lost | `interleaving_eq_sequential_counts`, `no_lost_update_counts`: the only accesses that operations on distinct handles share are atomic count updates (all other writes go to exclusively owned cells: `writes_exclusive` + isolation theorems), and every interleaving of those equals the sequential order; tied syntactically to SEQ_CST atomics; OPEN: the full small-step refinement (`interleaving_eq_sequential` with reads of children/payload interleaved — they are reads of fields no other thread writes), judged by threaded-vs-sequential runs |
 -/
@@ -364,5 +365,83 @@ theorem no_lost_update_counts (h : Heap D) (accs : List Acc)
 
 example : applyAll ([some { rc := 2, kids := [], data := 0 }] : Heap Nat) [.inc 0, .dec 0, .dec 0, .inc 0]
     = applyAll [some { rc := 2, kids := [], data := 0 }] [.dec 0, .dec 0, .inc 0, .inc 0] := by decide
+
+
+/-! ## Acyclicity and the last handle -/
+
+/-- The heap has no cycles: some height function decreases along every child link. -/
+def Acyclic (s : State D) : Prop := ∃ f, Hgt s.heap f
+
+theorem acyclic_copy (s : State D) (h : Nat) (ha : Acyclic s) : Acyclic (s.copy h) := by
+  obtain ⟨f, hf⟩ := ha
+  unfold State.copy
+  cases hr : s.root h with
+  | none => exact ⟨f, hf⟩
+  | some r => exact ⟨f, hgt_kidsFrom (kidsFrom_retain s.heap r) hf⟩
+
+theorem acyclic_delete (s : State D) (h : Nat) (ha : Acyclic s) : Acyclic (s.delete h) := by
+  obtain ⟨f, hf⟩ := ha
+  unfold State.delete
+  cases hr : s.root h with
+  | none => exact ⟨f, hf⟩
+  | some r => exact ⟨f, hgt_kidsFrom (kidsFrom_release s.heap r) hf⟩
+
+theorem acyclic_edit (s : State D) (h : Nat) (spec : EditSpec D) (hw : SWF s) (ha : Acyclic s) :
+    Acyclic (s.edit h spec) := by
+  obtain ⟨f, hf⟩ := ha
+  unfold State.edit
+  cases hr : s.root h with
+  | none => exact ⟨f, hf⟩
+  | some r =>
+    have hw0 := swf_split hw hr
+    have hrange : InRange s.heap r := by
+      cases r with
+      | inl d => trivial
+      | ptr i =>
+        obtain ⟨c, hc⟩ := hw0.live (id := i) (by simp [cnt]; omega)
+        exact cellAt_lt hc
+    obtain ⟨f', _, hf', _, _⟩ := editRef_hgt spec s.heap r _ f hw0 hf hrange
+    exact ⟨f', hf'⟩
+
+theorem acyclic_reparse (s : State D) (spec : BuildSpec D) (ha : Acyclic s) : Acyclic (s.reparse spec) := by
+  obtain ⟨f, hf⟩ := ha
+  unfold State.reparse
+  by_cases hl : reusedLive s.heap spec = true
+  · simp only [hl, if_true]
+    obtain ⟨f', _, hf', _⟩ := build_hgt spec s.heap f hf hl
+    exact ⟨f', hf'⟩
+  · simp only [hl]; exact ⟨f, hf⟩
+
+/-- `acyclic_invariant`: counting invariant and acyclicity together survive every history. -/
+theorem acyclic_invariant (ops : List (Op D)) : ∀ (s : State D), SWF s → Acyclic s →
+    SWF (ops.foldl State.apply s) ∧ Acyclic (ops.foldl State.apply s) := by
+  induction ops with
+  | nil => intro s hw ha; exact ⟨hw, ha⟩
+  | cons op ops ih =>
+    intro s hw ha
+    simp only [List.foldl_cons]
+    cases op with
+    | copy h => exact ih _ (rc_invariant_copy s h hw) (acyclic_copy s h ha)
+    | edit h spec => exact ih _ (rc_invariant_edit s h spec hw) (acyclic_edit s h spec hw ha)
+    | delete h => exact ih _ (rc_invariant_delete s h hw) (acyclic_delete s h ha)
+    | reparse spec => exact ih _ (rc_invariant_reparse s spec hw) (acyclic_reparse s spec ha)
+
+/-- `heap_empty_after_last_delete` (= `freed_once`, second half): after **any** history of copies,
+edits, re-parses and deletes that leaves no live handle, no cell is live — every shared node has
+been freed (exactly once: ids are never reused, `freed_never_reused_*`) after the last handle went
+away.  Nothing leaks from tree handles. -/
+theorem heap_empty_after_last_delete (ops : List (Op D)) (s : State D) (hw : SWF s) (ha : Acyclic s)
+    (hnone : rootsOf (ops.foldl State.apply s).handles = []) :
+    ∀ i, cellAt (ops.foldl State.apply s).heap i = none := by
+  obtain ⟨hw', ⟨f, hf⟩⟩ := acyclic_invariant ops s hw ha
+  unfold SWF at hw'
+  rw [hnone] at hw'
+  exact empty_of_no_roots hw' hf
+
+/-- Non-vacuity: the empty state (before the first parse) is well-formed and acyclic, and a first
+parse is `reparse` with a spec that reuses nothing. -/
+example : SWF ({ heap := [], handles := [] } : State Nat) ∧ Acyclic ({ heap := [], handles := [] } : State Nat) := by
+  refine ⟨⟨fun id => by simp [rcOf, cellAt, rootsOf, cnt, kidsOf], fun id c hc => by simp [cellAt] at hc⟩,
+    ⟨fun _ => 0, ⟨fun i c hc => by simp [cellAt] at hc, fun i c hc => by simp [cellAt] at hc⟩⟩⟩
 
 end TsVerif.C08
